@@ -10,7 +10,6 @@ import (
 	"testing"
 	"time"
 
-	"github.com/nuts-foundation/nuts-node/crypto/jwx"
 	"pgregory.net/rapid"
 	"verif.local/h"
 	"verif.local/h/jose"
@@ -27,7 +26,7 @@ func c17DpopGen(t *rapid.T) c17DpopCase {
 func c17DpopRun(x *h.Ctx, c c17DpopCase) {
 	w := jose.World{
 		KeyRef:  "jwk",
-		Allowed: jwx.SupportedAlgorithmsAsStrings(),
+		Allowed: jose.NodeAllowed,
 		Kids:    map[string]string{jose.Victim: "victim-key", jose.Attacker: "attacker-key", "unknown": "nobody-key"},
 		Header:  jose.Header{jose.Str("typ", DPopType)},
 		JWKAlg:  true,
